@@ -209,7 +209,7 @@ func (w *World) finalOracles() {
 	}
 	stopWanted := w.stopRequested || w.stopEverAsked
 	if w.runDone {
-		if w.runErr != nil && stopWanted {
+		if w.runErr != nil && stopWanted && !w.startFault() {
 			w.violate("C06", "run-error", "Run returned %v after an orderly shutdown request", w.runErr)
 		}
 		for _, cs := range w.conns {
@@ -246,7 +246,13 @@ func (w *World) finalOracles() {
 				cl = append(cl, c)
 			}
 			sort.Strings(cl)
-			w.violate("C07", "leak/"+strings.Join(cl, "+"), "Run returned but the framework still holds descriptors:%s", kinds)
+			// (a registration queued for a loop that exits is the same finding whether the
+			// loop exits because of a shutdown or because the engine failed to start)
+			if w.startFault() && strings.Join(cl, "+") != "stream-never-opened" {
+				w.violate("C07", "leak-after-failed-start/"+strings.Join(cl, "+"), "Run returned %v (injected: %s) but the framework still holds descriptors:%s", w.runErr, faultDesc(w.p.Faults), kinds)
+			} else {
+				w.violate("C07", "leak/"+strings.Join(cl, "+"), "Run returned but the framework still holds descriptors:%s", kinds)
+			}
 		}
 		if w.multi() && w.p.Cfg.Listeners == 3 && w.k.UnixPathExists("/tmp/verif-sim-second.sock") {
 			w.violate("C07", "unix-path", "Rotate returned but the unix-socket file of its second listener still exists")
@@ -269,4 +275,22 @@ func (w *World) finalOracles() {
 	if len(names) > 0 && w.viol[w.prop] == nil {
 		w.logf("callbacks still in flight at the end: %v", names)
 	}
+}
+
+// startFault: an injected failure of a descriptor-creating call fired before
+// the engine had booted completely and Run returned an error.
+func (w *World) startFault() bool {
+	if w.runErr == nil {
+		return false
+	}
+	for k, v := range w.k.FaultsFired {
+		if v > 0 {
+			for _, p := range []string{"socket:", "bind:", "listen:", "epoll_create:", "eventfd:", "epoll_ctl_add:", "setsockopt:"} {
+				if strings.HasPrefix(k, p) {
+					return true
+				}
+			}
+		}
+	}
+	return false
 }
